@@ -265,6 +265,23 @@ func vTemplates() []vUpdTemplate {
 		{"SET c = l, l[0] = :v", []string{":v"}, func(p, b vVals) vVals { return vWith(vWith(p, "c", p["l"]), "l", vListSet(p["l"], 0, b[":v"])) }},
 		{"SET c = m, m.k = :v", []string{":v"}, func(p, b vVals) vVals { return vWith(vWith(p, "c", p["m"]), "m", vSetMember(p["m"], "k", b[":v"])) }},
 		{"SET c = l REMOVE l[0]", nil, func(p, b vVals) vVals { return vWith(vWith(p, "c", p["l"]), "l", vListDel(p["l"], 0)) }},
+		// operands that are attributes of the item keep their values; one placeholder used by two actions
+		{"SET c = n - o", nil, func(p, b vVals) vVals { return vWith(p, "c", vN(p["n"].N-p["o"].N)) }},
+		{"SET c = n + o", nil, func(p, b vVals) vVals { return vWith(p, "c", vN(p["n"].N+p["o"].N)) }},
+		{"SET n = n - :n, o = o - :n", []string{":n"}, func(p, b vVals) vVals {
+			return vWith(vWith(p, "n", vN(p["n"].N-b[":n"].N)), "o", vN(p["o"].N-b[":n"].N))
+		}},
+		{"SET n = n + :n, o = o + :n", []string{":n"}, func(p, b vVals) vVals {
+			return vWith(vWith(p, "n", vN(p["n"].N+b[":n"].N)), "o", vN(p["o"].N+b[":n"].N))
+		}},
+		{"SET c = o ADD c :n", []string{":n"}, func(p, b vVals) vVals { return vWith(p, "c", vN(p["o"].N+b[":n"].N)) }},
+		// the same without white space around the operators
+		{"SET n=n-:n", []string{":n"}, func(p, b vVals) vVals { return vWith(p, "n", vN(p["n"].N-b[":n"].N)) }},
+		{"SET n = n-:n", []string{":n"}, func(p, b vVals) vVals { return vWith(p, "n", vN(p["n"].N-b[":n"].N)) }},
+		{"SET n=n+:n,a=:v", []string{":n", ":v"}, func(p, b vVals) vVals { return vWith(vWith(p, "n", vN(p["n"].N+b[":n"].N)), "a", b[":v"]) }},
+		{"SET l[0]=:v REMOVE m.k,b", []string{":v"}, func(p, b vVals) vVals {
+			return vWithout(vWith(vWith(p, "l", vListSet(p["l"], 0, b[":v"])), "m", vDelMember(p["m"], "k")), "b")
+		}},
 		// number sets and binary sets: union and difference by value
 		{"ADD ns :ns", []string{":ns"}, func(p, b vVals) vVals {
 			return vWith(p, "ns", vspec.Val{Kind: "NS", NS: vUnionN(p["ns"].NS, b[":ns"].NS)})
@@ -310,6 +327,7 @@ func VerifC07Update() {
 	t := ts[ti]
 	pre := vVals{
 		"n": vN(7),
+		"o": vN(3),
 		"m": {Kind: "M", M: map[string]vspec.Val{"k": vS1("mk"), "j": vS1("mj")}},
 		"l": {Kind: "L", L: []vspec.Val{vS1("l0"), vS1("l1")}},
 		"s": {Kind: "SS", SS: []string{nd.StringN("s0", 1), nd.StringN("s1", 1)}},
@@ -369,7 +387,7 @@ func VerifC07Update() {
 			b[name] = vspec.Val{Kind: "BS", BS: bs}
 		}
 	}
-	names := []string{"a", "b", "n", "m", "l", "s", "u", "ns", "bs"}
+	names := []string{"a", "b", "n", "o", "m", "l", "s", "u", "ns", "bs"}
 	item := vspec.ToItems(pre, names)
 	li := &Language{}
 	aliases := map[string]string{}
@@ -387,6 +405,31 @@ func VerifC07Update() {
 	b1, b2 := bigText, bigText
 	item["big"] = &types.Item{N: &b1}
 	item["bigs"] = &types.Item{L: []*types.Item{{N: &b2}}}
+	if nd.Param("prime", 1) == 1 {
+		// what the interpreter did before must not matter: it first applies the text with the case of its attribute
+		// names swapped (and its #names bound to the swapped names), then the very text to another item with
+		// other values; both on scratch items, outcomes ignored
+		flipped := map[string]string{}
+		for k, v := range aliases {
+			flipped[k] = vSwapCase(v)
+		}
+		li.Update(UpdateInput{TableName: "t", Expression: vFlipNames(t.text), Item: vspec.ToItems(pre, names), Attributes: vspec.ToItems(b, t.vals), Aliases: flipped})
+		otherVals := vVals{}
+		for k, v := range b {
+			switch v.Kind {
+			case "S":
+				otherVals[k] = vspec.Val{Kind: "S", S: "prime"}
+			case "N":
+				otherVals[k] = vN(1000)
+			default:
+				otherVals[k] = v
+			}
+		}
+		scratch := vVals{"n": vN(100), "o": vN(50), "a": {Kind: "S", S: "prime"}, "b": {Kind: "S", S: "prime"},
+			"m": {Kind: "M", M: map[string]vspec.Val{"k": {Kind: "S", S: "prime"}}}, "l": {Kind: "L", L: []vspec.Val{{Kind: "S", S: "prime"}, {Kind: "S", S: "prime"}}},
+			"s": {Kind: "SS", SS: []string{"prime"}}}
+		li.Update(UpdateInput{TableName: "t", Expression: t.text, Item: vspec.ToItems(scratch, []string{"n", "o", "a", "b", "m", "l", "s"}), Attributes: vspec.ToItems(otherVals, t.vals), Aliases: aliases})
+	}
 	err := li.Update(UpdateInput{TableName: "t", Expression: t.text, Item: item, Attributes: vspec.ToItems(b, t.vals), Aliases: aliases})
 	sameBig := func(it *types.Item) bool {
 		if it == nil || it.N == nil {
